@@ -6,7 +6,6 @@ import (
 	"fmt"
 	"math/bits"
 	"math/rand"
-	"regexp"
 	"strings"
 	"unicode"
 )
@@ -113,17 +112,25 @@ func (s *seq) Length() int {
 func (s *seq) LongestORF() (start, end int) {
 	start = -1
 	end = -1
-	re, _ := regexp.Compile("(ATG)(.{3})*?(TAA|TGA|TAG)")
-	//re.Longest()
-	idx := re.FindAllStringIndex(
-		strings.Replace(
-			strings.ToUpper(string(s.sequence)),
-			"U", "T", -1),
-		-1)
-	for _, pos := range idx {
-		if pos[1]-pos[0] > end-start {
-			end = pos[1]
-			start = pos[0]
+	str := strings.Replace(
+		strings.ToUpper(string(s.sequence)),
+		"U", "T", -1)
+	// Every ATG is a candidate, even if it is located inside
+	// another ORF (in another frame)
+	for i := 0; i+3 <= len(str); i++ {
+		if str[i:i+3] != "ATG" {
+			continue
+		}
+		// First in frame STOP codon
+		for j := i + 3; j+3 <= len(str); j += 3 {
+			codon := str[j : j+3]
+			if codon == "TAA" || codon == "TGA" || codon == "TAG" {
+				if j+3-i > end-start {
+					start = i
+					end = j + 3
+				}
+				break
+			}
 		}
 	}
 	return start, end
